@@ -253,7 +253,8 @@ def run(ctx):
     drv = common.lean_exe("drv_serde")
     binpath, bout = common.cargo_build_bin(ctx, "serdecorr")
     if binpath is None:
-        raise RuntimeError("harness `serdecorr` does not build against %s:\n%s" % (ctx.repo, bout[-4000:]))
+        common.harness_build_failed(ctx, "serdecorr", bout, what="the serde correspondence harness")
+        return
     rnd = random.Random(ctx.seed)
     payloads = fixed_payloads() + random_payloads(rnd, 30 if not ctx.thorough() else 300, ctx.thorough())
     seen = set()
